@@ -119,7 +119,7 @@ def run_scenario(shape, edits, vals, expect_exception=None):
 
 def scenario_space(tier, seed, kinds=None, funcs=(False, True), cfis=("none",), anns=("none",), patches=None, doubles=True, data_follows=(False,), multi=True, callee2=(False,), bare=(False,), gaps=(False,), pes=(False, True), ftflags=(False,)):
     kinds = kinds or list(scen.KINDS)
-    patches = patches or ["plain", "jmpL2", "ret", "callg", "jcc", "lab", "lab0", "jmplab", "samehead", "samehead2", "selfloop", "twocalls", "callfret"]
+    patches = patches or ["plain", "jmpL2", "ret", "callg", "jcc", "lab", "lab0", "jmplab", "samehead", "samehead2", "selfloop", "twocalls"]
     rnd = random.Random(seed)
     for kind, fn, cfi, ann, df, c2, br1, gp, pe, ff in itertools.product(kinds, funcs, cfis, anns, data_follows, callee2, bare, gaps, pes, ftflags):
         if ff and (pe or gp or c2 or br1):
